@@ -1,1 +1,3 @@
 import PalomaModel.Model.Libcons
+import PalomaModel.Model.Bridge
+import PalomaModel.Model.Abi
